@@ -55,11 +55,23 @@ def main():
                 if not ck.failures:
                     print('REPLAY-PASSES')
                 return 1 if ck.failures else 0
+            if isinstance(fr, dict) and fr.get('oracle') == 'locality':
+                from . import locality
+                rt.setup_torch()
+                locality.run_for(ck, a.prop, only=fr.get('group'))
+                for f in ck.failures[:3]:
+                    print('REPLAY-FAILS: ' + f['desc'])
+                if not ck.failures:
+                    print('REPLAY-PASSES')
+                return 1 if ck.failures else 0
             return mod.replay(ck, a.replay)
         mod.run(ck)
         if not os.environ.get('VERIF_NO_CONTENTION'):          # debugging switch only; the registered commands never set it
             from . import contention
             contention.run_for(ck, a.prop)
+        if not os.environ.get('VERIF_NO_LOCALITY'):            # debugging switch only
+            from . import locality
+            locality.run_for(ck, a.prop)
         return ck.finish()
     except Exception:
         traceback.print_exc()
